@@ -1,4 +1,5 @@
 import AmrK.ColumnAffine
+import AmrK.SlicingProofs
 import AmrK.RatProbe
 import AmrK.Grid
 import AmrK.Hyps
@@ -49,5 +50,26 @@ theorem inplane_placement (b : Grid.GBox) (f : Nat) (hf : 0 < f) (p : List Nat) 
 example : result ⟨0, 4, 1, [[⟨0, [1, 2]⟩, ⟨2, [3, 4]⟩]], 7/4, false⟩ = none := by decide +kernel
 /-- non-vacuity: the repaired rule interpolates between the two neighbouring boxes there -/
 example : result ⟨0, 4, 1, [[⟨0, [1, 2]⟩, ⟨2, [3, 4]⟩]], 7/4, true⟩ = some (9/4) := by decide +kernel
+
+/-- **the default position is the domain centre** (`Slicing.coords` = `Mandoline.define_slicing_coordinates`, run by the driver on
+    the exact values of the header's floats and compared with what the real method returns or refuses for every position tried,
+    including positions one unit in the last place outside the domain) -/
+theorem default_position_is_centre (normal : Option Nat) (lo hi : List Rat) (h : normal.getD 0 < 3) :
+    ∃ c, Slicing.coords normal none lo hi = some c ∧ c.cn = normal.getD 0 ∧
+      c.pos = Slicing.entry lo c.cn + (Slicing.entry hi c.cn - Slicing.entry lo c.cn) / 2 ∧
+      c.cx < c.cy ∧ c.cx ≠ c.cn ∧ c.cy ≠ c.cn ∧ c.cy < 3 :=
+  Slicing.default_is_centre normal lo hi h
+
+/-- **positions outside the domain are refused**, however little outside -/
+theorem position_outside_refused (normal : Option Nat) (p : Rat) (lo hi : List Rat)
+    (hout : p < Slicing.entry lo (normal.getD 0) ∨ p > Slicing.entry hi (normal.getD 0)) :
+    Slicing.coords normal (some p) lo hi = none :=
+  Slicing.outside_refused normal p lo hi hout
+
+/-- ... and every position of the closed domain is sliced at that very position -/
+theorem position_inside_kept (normal : Option Nat) (p : Rat) (lo hi : List Rat) (h : normal.getD 0 < 3)
+    (hin : Slicing.entry lo (normal.getD 0) ≤ p ∧ p ≤ Slicing.entry hi (normal.getD 0)) :
+    ∃ c, Slicing.coords normal (some p) lo hi = some c ∧ c.cn = normal.getD 0 ∧ c.pos = p :=
+  Slicing.inside_kept normal p lo hi h hin
 
 end C07
